@@ -63,6 +63,8 @@ def run_harness(repo_dir, target_dir, h, logdir, extra_args=(), timeout=None, ta
     if h.features:
         cmd += ["--no-default-features", "--features", h.features] if h.features != "none" else ["--no-default-features"]
     cmd += list(extra_args)
+    if getattr(h, "cbmc_args", None):
+        cmd += ["-Z", "unstable-options", "--cbmc-args"] + h.cbmc_args.split()
     t0 = time.time()
     to = timeout or h.timeout
     status = None
